@@ -3,7 +3,7 @@ oracles; the transcript is afterwards replayed through the Lean model."""
 import unicodedata
 
 from . import spec
-from .suites import hx
+from .suites import hx, RuleIndex
 
 EPOCH, STEP = spec.EPOCH, spec.TIME_STEP
 FNV = 0x100000001b3
@@ -76,6 +76,13 @@ class ApiGen:
         self.deps = None
         self.hist = {}
         self.strsize = self.L.consts['STR_SIZE']
+        self._rule = {}
+
+    def accepted_for(self, li, tok):
+        """indices the matcher's (proven) rule accepts the NFKD token for"""
+        if li not in self._rule:
+            self._rule[li] = RuleIndex(self.L.langs[li], self.L.words(li), code=True)
+        return self._rule[li].candidates(nfkd(tok))
 
     # ------------------------------------------------------------ reporting
     def report(self, prop, key, msg):
@@ -612,13 +619,13 @@ class ApiGen:
             if len(base) < 4 or not Lg['prefix']:
                 return
             cut = chars[:base[r.randrange(1, 4)]].encode()
-            if cut in self.L.words(li) or strip_marks(cut) in [strip_marks(w) for w in self.L.words(li)]:
+            if self.accepted_for(li, cut):
                 return
             t2[i] = cut
             exp = ('2',)
         elif kind == 'extend':
             t2[i] = t2[i] + r.choice([b'x', b'zz', b'a', 'é'.encode(), b's'])
-            if t2[i] in self.L.words(li) or any(w.startswith(t2[i]) for w in self.L.words(li)):
+            if self.accepted_for(li, t2[i]):
                 return
             exp = ('2',)
         elif kind == 'extra':
